@@ -80,11 +80,13 @@ PROPS = {
         assumptions=[A['A3'], A['A4'], "ff::BitIterator contract (MSB-first bits of the limb value) assumed: dependency", A['D_FQ'], A['TOOLS']],
     ),
     'C02': dict(
-        units_quick=['scalar'], units_thorough=['scalar', 'curve'], timeout=600,
+        units_quick=['scalar', 'precomp'], units_thorough=['scalar', 'precomp', 'curve'], timeout=600,
         claim="PARTIAL: the plain scalar-multiplication paths (real bodies, G1 and G2): affine mul_bits / mul (double and mixed add, MSB first) and "
               "projective mul_assign (leading-zero skipping) return [k]P for every limb value k of the scalar representation (all 2^256 values, any limb "
-              "count for mul_bits), by a loop invariant over ff's BitIterator contract and proved bit-decomposition lemmas.",
-        not_covered=["wNAF (wnaf_table, wnaf_form, wnaf_exp, Wnaf contexts) - contracts not completed", "precomp_3 / mul_precomp_3, precomp_256 / mul_precomp_256 - contracts not completed",
+              "count for mul_bits), by a loop invariant over ff's BitIterator contract and proved bit-decomposition lemmas. The 256-entry table path (real bodies, G1 and G2): "
+              "precomp_256 fills entry b with [sum over the set bits j of b of 2^(32j)]P for all 256 b, and mul_precomp_256 returns [k]P for every 256-bit k given such a "
+              "table (the eight extraction expressions are related to the bits of the 32-bit chunks by bit-vector lemmas stated over the code's own expressions).",
+        not_covered=["wNAF (wnaf_table, wnaf_form, wnaf_exp, Wnaf contexts) - contracts not completed", "precomp_3 / mul_precomp_3 - contracts not completed",
                      "recommended_wnaf_* ranges - not completed", "ff::BitIterator itself (dependency; contract assumed)"],
         assumptions=[A['A3'], "ff::BitIterator contract assumed (dependency)", "group-level contracts of double / add_assign / add_assign_mixed are the statements of unit curve lifted through A3", A['TOOLS']],
     ),
@@ -148,12 +150,12 @@ PROPS = {
         assumptions=["Kani 0.68 / CBMC 6.11; the unsafe transmute constructor pairing::bls12_381::transmute::{fq, fr} and mem::transmute_copy are used to move raw limbs in and out", "rustc codegen (MIR -> goto)"],
     ),
     'C10': dict(
-        units_quick=['kani:window', 'scalar'], units_thorough=['kani:window', 'scalar'], timeout=3000,
+        units_quick=['kani:window', 'scalar', 'precomp'], units_thorough=['kani:window', 'scalar', 'precomp'], timeout=3000,
         technique="Kani/CBMC full-domain harness for the window heuristic; Verus composition contract for the entry point",
         claim="PARTIAL: find_pippinger_window (G1 and G2) returns, for every usize number of components, a window in 1..=16 equal to the documented table and "
               "monotone in its argument (CBMC, full domain); sum_of_products = sum_of_products_pippinger(points, scalars, find_pippinger_window(min(#points, "
-              "#scalars))) (real body, Verus). The bucket method itself (digit extraction, bucket accumulation, running sums), the table-driven variant and the "
-              "panic precondition are NOT decided.",
+              "#scalars))) (real body, Verus). precomp_256 (the table the table-driven variant uses) builds the subset-sum table exactly (unit precomp). "
+              "The bucket method itself (digit extraction, bucket accumulation, running sums), sum_of_products_precomp_256 and the panic precondition are NOT decided.",
         not_covered=["sum_of_products_pippinger (six nested loops): not decided", "sum_of_products_precomp_256: not decided"],
         assumptions=["Kani 0.68 / CBMC 6.11", A['TOOLS']],
     ),
